@@ -717,6 +717,110 @@ class PathEval:
         self.env.update(outer)
         return False
 
+    def _effect_loop(self, s: ast.For) -> bool:
+        """A loop whose body only applies effects to containers, possibly under guards on the loop variables:
+             for T in IT: [if c(T): continue] ... obj.method(f(T)) / d[k(T)] = v(T) / d[k(T)] += v / del d[k(T)]
+        Each effect becomes one update `foreach` (target, op, key/args as templates over the loop variables, guard), in program order."""
+        tnames = [x.id for x in ast.walk(s.target) if isinstance(x, ast.Name)]
+        if not tnames:
+            return False
+        saved = dict(self.env)
+        for k in tnames:
+            self.env.pop(k, None)
+        it = self.subst(s.iter)
+        local = {}
+        effects = []
+
+        def sub(e):
+            return ast.fix_missing_locations(_Subst({**self.env, **local}).visit(copy.deepcopy(e)))
+
+        def conj(g, c):
+            return c if g is None else ast.fix_missing_locations(ast.BoolOp(op=ast.And(), values=[copy.deepcopy(g), c]))
+
+        def neg(c):
+            return ast.fix_missing_locations(ast.UnaryOp(op=ast.Not(), operand=copy.deepcopy(c)))
+
+        def walk(body, guard):
+            """returns (ok, guard for the statements that follow)"""
+            for b in body:
+                if isinstance(b, ast.Delete) and len(b.targets) == 1 and isinstance(b.targets[0], ast.Subscript):
+                    t = sub(b.targets[0])
+                    effects.append(dict(kind='foreach', op='del', target=t.value, method=None, args=[], key=t.slice, value=None, guard=guard, node=b))
+                    continue
+                if is_noise_stmt(b) or isinstance(b, ast.Pass):
+                    continue
+                if isinstance(b, ast.If):
+                    t = sub(b.test)
+                    if len(b.body) == 1 and isinstance(b.body[0], ast.Continue) and not b.orelse:
+                        guard = conj(guard, neg(t))
+                        continue
+                    ok1, _ = walk(b.body, conj(guard, t))
+                    ok2, _ = walk(b.orelse, conj(guard, neg(t))) if b.orelse else (True, None)
+                    if not (ok1 and ok2):
+                        return False, guard
+                    continue
+                if isinstance(b, ast.For) and not b.orelse:
+                    # a nested loop of the same kind: its effects range over the product of both loops
+                    inner_names = [x.id for x in ast.walk(b.target) if isinstance(x, ast.Name)]
+                    if not inner_names:
+                        return False, guard
+                    hidden = {k: local.pop(k) for k in inner_names if k in local}
+                    inner_it = sub(b.iter)
+                    n0 = len(effects)
+                    ok_in, _ = walk(b.body, guard)
+                    local.update(hidden)
+                    if not ok_in or len(effects) == n0:
+                        return False, guard
+                    for e in effects[n0:]:
+                        e.setdefault('inner', []).insert(0, (inner_names, inner_it, copy.deepcopy(b.target)))
+                    continue
+                if isinstance(b, ast.Assign) and len(b.targets) == 1 and isinstance(b.targets[0], ast.Name) and guard is None:
+                    local[b.targets[0].id] = sub(b.value)
+                    continue
+                if isinstance(b, ast.Assign) and len(b.targets) == 1 and isinstance(b.targets[0], ast.Tuple) and all(isinstance(x, ast.Name) for x in b.targets[0].elts) and guard is None:
+                    v = sub(b.value)
+                    for i, x in enumerate(b.targets[0].elts):
+                        local[x.id] = v.elts[i] if isinstance(v, ast.Tuple) and len(v.elts) == len(b.targets[0].elts) else ast.fix_missing_locations(ast.Subscript(value=copy.deepcopy(v), slice=ast.Constant(i), ctx=ast.Load()))
+                    continue
+                if isinstance(b, ast.Expr) and isinstance(b.value, ast.Call) and isinstance(b.value.func, ast.Attribute):
+                    c = sub(b.value)
+                    recv = c.func.value
+                    orig = b.value.func.value
+                    if isinstance(orig, ast.Name) and orig.id not in local and self._is_value(self.env.get(orig.id)):
+                        recv = copy.deepcopy(orig)       # a container built in this function: the receiver is the object, not its initial value
+                    effects.append(dict(kind='foreach', op='call', target=recv, method=c.func.attr, args=c.args, key=None, value=c.args[0] if c.args else None, guard=guard, node=b))
+                    continue
+                if isinstance(b, ast.Assign) and len(b.targets) == 1 and isinstance(b.targets[0], ast.Subscript):
+                    t = sub(b.targets[0])
+                    effects.append(dict(kind='foreach', op='store', target=t.value, method=None, args=[], key=t.slice, value=sub(b.value), guard=guard, node=b))
+                    continue
+                if isinstance(b, ast.AugAssign) and isinstance(b.target, ast.Subscript):
+                    t = sub(b.target)
+                    effects.append(dict(kind='foreach', op='inc', target=t.value, method=type(b.op).__name__, args=[], key=t.slice, value=sub(b.value), guard=guard, node=b))
+                    continue
+                if isinstance(b, ast.Delete) and len(b.targets) == 1 and isinstance(b.targets[0], ast.Subscript):
+                    t = sub(b.targets[0])
+                    effects.append(dict(kind='foreach', op='del', target=t.value, method=None, args=[], key=t.slice, value=None, guard=guard, node=b))
+                    continue
+                return False, guard
+            return True, guard
+        ok, _ = walk(s.body, None)
+        self.env.clear()
+        self.env.update(saved)
+        if not ok or not effects:
+            return False
+        for e in effects:
+            e['over'] = it
+            e['vars'] = tnames
+            e['target_shape'] = copy.deepcopy(s.target)
+            e['loop'] = id(s)
+            # chain of (loop variables, iterated expression) from the outermost loop to the innermost
+            e['chain'] = [(tnames, it, copy.deepcopy(s.target))] + e.pop('inner', [])
+            self.res.updates.append(e)
+        for k in tnames:
+            self.env[k] = None
+        return True
+
     def _store_loop(self, s: ast.For) -> bool:
         """for T in IT: D[T] = V   /   for T in IT: D[T] += V     (V does not depend on T)  ->  one keyed update of D over IT"""
         if not isinstance(s.target, ast.Name):
@@ -775,6 +879,8 @@ class PathEval:
                     base = t
                     while isinstance(base, (ast.Subscript, ast.Attribute)):
                         base = base.value
+                    if isinstance(t, ast.Attribute) and t.attr in ('columns', 'name', 'names') and isinstance(t.value, ast.Name):
+                        continue        # relabelling a frame: its rows are what they were
                     if base is not t and isinstance(base, ast.Name) and self._is_value(self.env.get(base.id)):
                         self.env[base.id] = None
             todo.extend(ast.iter_child_nodes(x))
@@ -802,7 +908,7 @@ class PathEval:
     @staticmethod
     def _is_value(v) -> bool:
         """the binding holds a freshly built object (not a reference to some other named object)"""
-        return v is not None and not isinstance(v, (ast.Name, ast.Attribute))
+        return v is not None and not isinstance(v, (ast.Name, ast.Attribute, ast.Subscript))
 
     def _stmt(self, s):
         """'end' when the path ended at s"""
@@ -906,8 +1012,8 @@ class PathEval:
                         and not any(isinstance(x, ast.Name) and x.id == a0.key.id for x in ast.walk(a0.value)):
                     self.res.updates.append(dict(kind='storeall', target=self.subst(s.value.func.value), over=self.subst(a0.generators[0].iter), key=None, value=self.subst(a0.value), node=s))
                     return None
-            if isinstance(s, ast.For) and not s.orelse and self._store_loop(s):
-                return None
+            if isinstance(s, ast.For) and not s.orelse and (self._store_loop(s) or self._effect_loop(s)):
+                return None      # (containers written by the loop are invalidated by the caller)
             if isinstance(s, ast.AugAssign) and isinstance(s.target, ast.Name):
                 cur = self.env.get(s.target.id) or ast.Name(s.target.id, ast.Load())
                 self.env[s.target.id] = ast.fix_missing_locations(ast.BinOp(left=copy.deepcopy(cur), op=s.op, right=self.subst(s.value)))
@@ -988,4 +1094,6 @@ def within_vocabulary(found, accepted) -> bool:
     known = set()
     for a in accepted:
         known |= term_vocab(a)
+    if 'len' in known:
+        known |= {'shape', 'size'}      # x.shape[0] is canonicalised to len(x): other uses of shape / size are within the vocabulary
     return term_vocab(found) <= known
